@@ -129,6 +129,12 @@ var items = []pluginItem{
 	{yaml: `ipv6only: '"quoted"'`, name: "ipv6only", args: []string{`"quoted"`}},
 	{yaml: `autoconfigure: 'a\ b x=1 #y a,b;c'`, name: "autoconfigure", args: []string{`a\`, "b", "x=1", "#y", "a,b;c"}},
 	{yaml: `staticroute: "p\tq\nr"`, name: "staticroute", args: []string{"p", "q", "r"}},
+	// single unquoted tokens that YAML types as numbers or booleans: the argument is the token
+	{yaml: "mtu: 0.00005", name: "mtu", args: []string{"0.00005"}},
+	{yaml: "lease_time: 1234567.5", name: "lease_time", args: []string{"1234567.5"}},
+	{yaml: "netmask: 0.5", name: "netmask", args: []string{"0.5"}},
+	{yaml: "router: 4294967296", name: "router", args: []string{"4294967296"}},
+	{yaml: "dns: true", name: "dns", args: []string{"true"}},
 	{yaml: "a: 1\n      b: 2", reject: true},
 	{yaml: "{a: 1, b: 2}", reject: true},
 	{yaml: "dns", skip: true},
